@@ -19,6 +19,10 @@ Bounded exhaustive enumeration of link graphs on the real code, two layers (four
   within     three sibling objects inside ONE class-typed argument, links between the siblings (these are handed
              to the argument's own parser, where the same ordering code runs again) combined with links from / to
              a separate component.
+  faults     operation histories on a used parser: for planned acyclic link sets of the three families EVERY
+             constructor call and EVERY compute_fn call of a first instantiate_classes is made to raise once (fault
+             enumeration); the same parser must afterwards instantiate the same configuration (thorough: and a
+             freshly parsed one) exactly as a fresh parser would (full constructor-log oracle).
 
 For hier / within the reference is the dependency graph "link edges + nesting edges" (an object is built before the
 object whose constructor receives it): a link that makes this graph cyclic must be refused with ValueError when it
@@ -41,7 +45,9 @@ META = {
     "orders and its answer (order or ValueError) is validated by an independent acyclicity/order check; every DAG "
     "on up to 3 (quick) / 4 (thorough) components is realised as a real parser with instantiation links in every "
     "declaration order and instantiated, and a constructor log decides exactly-once construction, "
-    "source-before-target order and identity of the fed value; every cycle-closing link must be refused when added. "
+    "source-before-target order and identity of the fed value; every cycle-closing link must be refused when added; "
+    "instantiation is repeated on the same parser, also after an instantiation aborted at each possible constructor / "
+    "compute_fn call. "
     "The verdict is exhaustive within these bounds; nothing is sampled.",
     "level_note": "Trusted: the 15-line bitmask Kahn check, the fixture classes' constructor log, the reference "
     "dependency graph of the hier / within families (link edges + nesting edges). Graphs on more than 5 nodes / 4 "
@@ -340,19 +346,6 @@ def setup_within(case, F):
             return "h.init_args." + param
         return f"h.init_args.{node}.init_args.{param}"
 
-    def tags(links):
-        sib = [(n, l["t"]) for l in links for n, _ in l["s"] if n in "abc" and l["t"] in "abc"]
-        out = []
-        if sib and not acyclic(3, [("abc".index(s), "abc".index(t)) for s, t in sib]):
-            out.append("cycle-among-links-within-one-class-argument")
-        if sib and any(n == "X" and l["t"] == "H" for l in links for n, _ in l["s"]):
-            out.append("link-into-argument-that-has-inner-links")
-        if any(n == "X" for l in links for n, _ in l["s"] if l["t"] in "abc") and (
-            sib or any(n == "H" for l in links for n, _ in l["s"])
-        ):
-            out.append("target-nested-in-source-component")
-        return out
-
     return {
         "build": build,
         "nodes": {"a": "SibA", "b": "SibB", "c": "SibC", "H": "Holder", "X": "SrcA"},
@@ -363,8 +356,22 @@ def setup_within(case, F):
         "result": {"H": "h", "X": "sa"},
         "parents": [("H", "a", "a"), ("H", "b", "b"), ("H", "c", "c")],
         "params": {"a": ["qa", "qb", "qc", "qs"], "b": ["qa", "qb", "qc", "qs"], "c": ["qa", "qb", "qc", "qs"], "H": ["qs"], "X": ["pr"]},
-        "tags": tags,
+        "tags": _within_tags,
     }
+
+
+def _within_tags(links):
+    sib = [(n, l["t"]) for l in links for n, _ in l["s"] if n in "abc" and l["t"] in "abc"]
+    out = []
+    if sib and not acyclic(3, [("abc".index(s), "abc".index(t)) for s, t in sib]):
+        out.append("cycle-among-links-within-one-class-argument")
+    if sib and any(n == "X" and l["t"] == "H" for l in links for n, _ in l["s"]):
+        out.append("link-into-argument-that-has-inner-links")
+    if any(n == "X" for l in links for n, _ in l["s"] if l["t"] in "abc") and (
+        sib or any(n == "H" for l in links for n, _ in l["s"])
+    ):
+        out.append("target-nested-in-source-component")
+    return out
 
 
 SETUP = {"dag": setup_dag, "hier": setup_hier, "within": setup_within}
@@ -469,6 +476,7 @@ def run_e2e(case):
     import jsonargparse
 
     F = _fx()
+    F.arm()  # no fault armed unless the case says so
     Namespace = jsonargparse.Namespace
     layer = case["layer"]
     fam = SETUP[layer](case, F)
@@ -520,8 +528,34 @@ def run_e2e(case):
     except BaseException as ex:  # noqa: BLE001
         return [(sig(tags, f"parse-fails:{type(ex).__name__}", "instantiation-wrong"), str(ex)[:300])], stats
     devs = []
-    for rnd in (1, 2):  # instantiating the same parsed configuration twice must behave the same
-        pre = "" if rnd == 1 else "second-instantiation:"
+    fault = case.get("fault")
+    if fault is None:
+        # instantiating the same parsed configuration twice must behave the same
+        rounds = [("", False), ("second-instantiation:", False)]
+    else:
+        # operation history with an ABORTED instantiation on the same parser: one constructor / compute_fn call of
+        # the first instantiate_classes raises (what happens in that call is not judged); afterwards the same
+        # configuration and then a freshly parsed one are instantiated on the used parser and judged in full.
+        F.reset()
+        F.arm(*fault)
+        stats["calls"] += 1
+        try:
+            parser.instantiate_classes(cfg)
+        except Exception:  # noqa: BLE001
+            stats["aborted"] = 1
+            stats["aborted_late"] = int(len(F.LOG) >= 1)
+        finally:
+            stats["fault_fired"] = F.FAULT["fired"]
+            F.arm()
+        rounds = [("after-aborted-instantiation:", False)] + [("after-aborted-instantiation:", True)] * bool(case.get("reparse"))
+    for pre, reparse in rounds:
+        if reparse:
+            stats["calls"] += 1
+            try:
+                cfg = parser.parse_args(list(args))
+            except BaseException as ex:  # noqa: BLE001
+                devs.append((f"{pre}parse-fails:{type(ex).__name__}", str(ex)[:300]))
+                break
         F.reset()
         stats["calls"] += 1
         try:
@@ -534,6 +568,12 @@ def run_e2e(case):
             break
         stats["order"] = ">".join(e[0] for e in F.LOG)
     stats["instantiated"] = 1
+    if devs and fault is not None:
+        # A break that a fresh parser shows without any aborted call is not history dependent: report it under its
+        # plain signature, so that "after-aborted-instantiation:" names only what the aborted call left behind.
+        plain, _ = run_e2e({k: v for k, v in case.items() if k not in ("fault", "reparse")})
+        if plain:
+            return plain, stats
     if not devs:
         stats["shapes"] = sorted({link_shape(l) for l in added})
     if devs and tags:
@@ -737,7 +777,86 @@ def within_cases(quick):
                         yield {"layer": "within", "h": hk, "x": xk, "decl": decl, "links": lo}
 
 
-FAMILIES = [("dag", dag_cases), ("hier", hier_cases), ("within", within_cases)]
+# ---- operation histories with an aborted instantiation (fault points) ---------------------------------
+# case["fault"] = [what, index, exc]: the index-th constructor call (what = "ctor") or compute_fn call ("fn") of the
+# FIRST instantiate_classes raises (exc "R": a RuntimeError subclass, "V": a ValueError subclass); then the same
+# parser instantiates the same configuration again and a freshly parsed one, both judged by the full oracle.
+# Every fault point of a case is enumerated: one per constructor call of a clean run (= number of classes) and one
+# per compute_fn call (= number of links with a compute_fn).
+
+CTOR_CALLS = {"hier": 5, "within": 5}
+
+
+def fault_points(case, excs):
+    n_ctor = CTOR_CALLS.get(case["layer"]) or len(case["kinds"])
+    n_fn = sum(l["fn"] for l in case["links"])
+    for exc in excs:
+        for what, n in (("ctor", n_ctor), ("fn", n_fn)):
+            for index in range(n):
+                yield [what, index, exc]
+
+
+def fault_plan(k, quick):
+    """Rows (kinds, variant, link-order level (-1: as listed only), declaration orders 'all' | 'few', exception kinds)."""
+    gsa = ["".join(p) for p in itertools.product("GSA", repeat=k)]
+    gs = ["".join(p) for p in itertools.product("GS", repeat=k)]
+    rows = []
+    if k == 2:
+        rows += [(kinds, v, 0, "all", "RV" if v in ("whole", "attr+fn") or not quick else "R") for kinds in gsa for v in VARIANTS]
+        rows += [(kinds, "whole", 0, "all", "R") for kinds in ("TT", "TS", "GT")]
+    elif k == 3 and quick:
+        rows += [("GGG", "whole", 0, "all", "R"), ("GGG", "attr+fn", -1, "all", "R"), ("GGG", "multi", -1, "all", "R")]
+        rows += [("GSG", "whole", -1, "few", "R"), ("SGS", "attr+fn", -1, "few", "R")]
+    elif k == 3:
+        rows += [("GGG", v, 0, "all", "RV") for v in ("whole", "attr+fn", "multi", "mixed")]
+        rows += [(kinds, v, -1, "all", "R") for kinds in ("GSG", "SGS", "SSS", "AAA", "TTT") for v in ("whole", "attr+fn")]
+    else:
+        rows += [("GGGG", "whole", -1, "two", "R")]
+    return rows
+
+
+def fault_cases(quick):
+    """Every fault point of every planned acyclic link set (simplest first).  Thorough histories also re-parse."""
+    more = {} if quick else {"reparse": 1}
+    for k in (2, 3) if quick else (2, 3, 4):
+        decls = [list(p) for p in itertools.permutations(range(k))]
+        few = [d for i, d in enumerate(decls) if i in (0, len(decls) - 1, 9, 14)]
+        dags = [g for g in sorted(all_digraphs(k), key=len) if g and acyclic(k, g)]
+        for edges in dags:
+            for kinds, variant, level, decl_mode, excs in fault_plan(k, quick):
+                links = links_for(edges, variant)
+                if variant == "multi" and all(len(l["s"]) == 1 for l in links):
+                    continue
+                if variant == "mixed" and len(edges) < 2:
+                    continue
+                for decl in {"all": decls, "few": few, "two": few[:2]}[decl_mode]:
+                    for lo in link_orders(links, max(level, 0))[: 1 if level < 0 else None]:
+                        base = {"layer": "dag", "kinds": kinds, "decl": decl, "links": lo, **more}
+                        for fault in fault_points(base, excs):
+                            yield {**base, "fault": fault}
+    # nested targets (hier, downward link sets) and links handled by the parser of a class-typed argument (within)
+    for root_kind in ("G", "S"):
+        down, _ = hier_links(root_kind, "whole")
+        for links in _subsets(down, (1,) if quick else (1, 2)):
+            for decl in (["sa", "sb", "root"],) if quick else (["sa", "sb", "root"], ["root", "sb", "sa"]):
+                base = {"layer": "hier", "root": root_kind, "src": "GG", "decl": decl, "links": links, **more}
+                for fault in fault_points(base, "R"):
+                    yield {**base, "fault": fault}
+    for variant in ("whole",):
+        sib, outer = within_links(variant)
+        if quick:  # one sibling link in each direction of the declaration order, and every link from / to outside
+            sib = [l for l in sib if (l["s"][0][0], l["t"]) in (("a", "b"), ("c", "a"))]
+            outer = [l for l in outer if l["t"] in ("b", "H", "X")]
+        for links in _subsets(sib + outer, (1,) if quick else (1, 2)):
+            base = {"layer": "within", "h": "S", "x": "G", "decl": ["h", "sa"], "links": links, **more}
+            fam = {"nodes": dict.fromkeys("abcHX"), "nesting": [("a", "H"), ("b", "H"), ("c", "H")]}
+            if not ref_acyclic(fam, links) or _within_tags(links):
+                continue  # refused / known-weak shapes are judged by the plain family
+            for fault in fault_points(base, "R"):
+                yield {**base, "fault": fault}
+
+
+FAMILIES = [("dag", dag_cases), ("hier", hier_cases), ("within", within_cases), ("faults", fault_cases)]
 
 
 # =================================================================================================
@@ -756,9 +875,13 @@ def e2e_worker(cases):
     out = {"cases": 0, "calls": 0, "rejected": 0, "instantiated": 0, "nontrivial": 0, "flagged": 0, "devs": []}
     out["expect_refuse"] = out["expect_instantiate"] = 0
     out["orders"], out["shapes"] = set(), set()
+    out["aborted"] = out["aborted_late"] = out["fault_fired"] = out["fault_histories"] = 0
     F = _fx()
     for case in cases:
         devs, stats = run_e2e(case)
+        out["fault_histories"] += "fault" in case
+        for k in ("aborted", "aborted_late", "fault_fired"):
+            out[k] += stats.get(k, 0)
         out["shapes"].update(stats.get("shapes", ()))
         if "order" in stats:
             out["orders"].add(stats["order"])
@@ -803,6 +926,7 @@ def explore(ctx):
 
     # ---- layer 2
     keys = ("cases", "calls", "rejected", "instantiated", "nontrivial", "flagged", "expect_refuse", "expect_instantiate")
+    keys += ("fault_histories", "aborted", "aborted_late", "fault_fired")
     e = dict.fromkeys(keys, 0)
     fam = {}
     for name, gen in FAMILIES:
@@ -853,6 +977,10 @@ def explore(ctx):
             "dag_components": 3 if quick else 4,
             "hier_links": "<= 3 into the levels, <= 2 with a level as source" if quick else "<= 6 into the levels, <= 3 with a level as source",
             "within_links": 3 if quick else 4,
+            "fault_histories": "every constructor / compute_fn call of the first instantiation as fault point; dag: all "
+            "DAGs on 2 components x all kinds x all shapes, on 3 components for the kind/shape rows of fault_plan"
+            + ("" if quick else ", on 4 components GGGG") + "; hier: downward link sets of <= "
+            + ("1" if quick else "2") + " links; within: " + ("5 representative single links" if quick else "<= 2 links"),
         },
         graph=g,
         families=fam,
@@ -866,6 +994,7 @@ def explore(ctx):
     ctx.require(fam["dag"]["expect_refuse"] > 100, "dag family: > 100 cycle-closing links to refuse")
     ctx.require(fam["hier"]["expect_instantiate"] - fam["hier"]["flagged"] > 300, "hier family: > 300 acyclic link sets of un-flagged shape")
     ctx.require(fam["within"]["expect_instantiate"] > 100 and fam["within"]["expect_refuse"] > 100, "within family: > 100 acyclic and > 100 cyclic link sets")
+    ctx.require(fam["faults"]["fault_histories"] > 2000 and fam["faults"]["fault_histories"] == fam["faults"]["cases"], "faults family: > 2000 histories with an aborted instantiation")
     # guards on what the implementation was seen doing: they protect a PASS verdict only.  When the run reports a
     # violation anyway (a deviation that is not a known finding) they are moot and must not turn it into exit 2.
     from mc.core import load_known
@@ -881,3 +1010,8 @@ def explore(ctx):
         )
         ctx.require(fam["hier"]["instantiated"] - fam["hier"]["flagged"] > 300, "hier family instantiated > 300 parsers of un-flagged shape")
         ctx.require(fam["within"]["instantiated"] > 100, "within family instantiated > 100 parsers")
+        ctx.require(
+            fam["faults"]["fault_fired"] == fam["faults"]["fault_histories"] and fam["faults"]["aborted"] > 2000,
+            "faults family: every armed fault point was reached and > 2000 first instantiations were aborted by it",
+        )
+        ctx.require(fam["faults"]["aborted_late"] > 1000, "faults family: > 1000 instantiations aborted after at least one class had been constructed")
